@@ -98,6 +98,12 @@ def _events(n, variant=0):
     return _SE_CACHE[(n, variant)]
 
 
+def spec_hash_small(spec):
+    import json, zlib
+
+    return zlib.crc32(json.dumps(spec, sort_keys=True, default=str).encode())
+
+
 def check(spec, ctx):
     from soundevent import data
     from soundevent.geometry import group_sound_events
@@ -141,6 +147,29 @@ def check(spec, ctx):
         ctx.fail("group_sound_events reordered or modified the input list", spec, None, None, kind="input_mutated")
     ctx.case(spec, nontrivial=nontrivial, labels=[f"n={n}" if n <= 6 else "n>6", f"events_variant={variant}", f"components={min(len(exp), 5)}{'+' if len(exp) > 5 else ''}"], out={"groups": len(out)})
 
+    if 2 <= n <= 40:
+        # two groupings in progress at once: this one is suspended at lines inside the library (and inside the comparison
+        # function's caller) while another thread groups the reversed tail of the list
+        def shape(res):
+            return [[index.get(id(e)) for e in s.sound_events] for s in res]
+
+        n_calls = len(calls)
+        ctx.interleave(spec, "group_sound_events", lambda: shape(group_sound_events(events, cmp)), lambda: shape(group_sound_events(events[1:][::-1], cmp)), every=3, max_pauses=32)
+        del calls[n_calls:]
+        # ... and a comparison function may itself need a grouping (e.g. of the two events' own syllables)
+        nested_done = []
+
+        def cmp_nested(a, b):
+            if len(nested_done) < 3:
+                nested_done.append(shape(group_sound_events(events[::-1][: max(2, n // 2)], cmp)))
+            return cmp(a, b)
+
+        if spec_hash_small(spec) % 4 == 0:
+            out_n = shape(group_sound_events(events, cmp_nested))
+            del calls[n_calls:]
+            if out_n != shape(out):
+                ctx.fail(f"group_sound_events gives {out_n} when the comparison function itself groups other events, {shape(out)} otherwise", spec, out_n, shape(out), kind="not_reentrant")
+            ctx.label("nested_grouping")
     if not isinstance(out, list) or not all(isinstance(s, data.Sequence) for s in out):
         ctx.fail("result is not a list of Sequence objects", spec, repr(out)[:200], None, kind="type")
     got = []
